@@ -30,3 +30,23 @@ Definition nesterov_run_f (t0 : ctype) (radius0 : float) (t1 : ctype) (radius1 :
            (trace : list (V3 float * V3 float)) : list (list float) * Z * list float * Z :=
   nesterov_replay_f use_acc (normalize_support_direction t0 t1) max_interations tolerance upper_bound
                     (@inflation float FOps t0 radius0 t1 radius1) trace.
+
+(** gjk_nesterov_accelerated_primitives, run from the tuple built by get_minkowski_diff (no trace:
+    the jitted loop cannot be observed from outside); code -2 = a collider type the function asserts against *)
+Definition fm (a b c d e f g h i : float) : M3 float := M (V a b c) (V d e f) (V g h i).
+Definition nesterov_prim_run_f (t0 : ctype) (radius0 : float) (t1 : ctype) (radius1 : float)
+           (use_acc : bool) (max_interations : nat) (tolerance upper_bound : float)
+           (ty0 : nat) (data0 : V3 float) (ty1 : nat) (data1 : V3 float) (oR1 : M3 float) (ot1 : V3 float)
+  : Z * list float * Z * Z :=
+  match @inflation_primitives float FOps t0 radius0 t1 radius1 with
+  | None => (-2, [], 0, 0)
+  | Some infl =>
+    let '(r, evals) := @nesterov_prim_run float FOps use_acc max_interations tolerance upper_bound infl
+                                          ty0 data0 ty1 data1 oR1 ot1 in
+    match r with
+    | NAns true d n => (1, [d], Z.of_nat n, Z.of_nat evals)
+    | NAns false d n => (0, [d], Z.of_nat n, Z.of_nat evals)
+    | NErr => (-1, [], 0, Z.of_nat evals)
+    | NTrace => (-3, [], 0, Z.of_nat evals)
+    end
+  end.
